@@ -49,9 +49,12 @@ structure MonSt where
   maxSimul : Nat := 0
   deriving Repr
 
+/-- the first violation of every category (text before the first colon) is kept, joined by ` || ` -/
 def flag (s : MonSt) (msg : String) : MonSt :=
   match s.bad with
-  | some _ => s
+  | some b =>
+    if (b.splitOn " || ").any (fun m => (m.splitOn ":").headD "" == (msg.splitOn ":").headD "") then s
+    else { s with bad := some (b ++ " || " ++ msg) }
   | none => { s with bad := some msg }
 
 /-- all grants on lock `lk` other than `gid` are compatible with `m` -/
